@@ -1,8 +1,10 @@
 package main
 
 import (
+	"fmt"
 	"go/constant"
 	"go/token"
+	"go/types"
 	"strings"
 
 	"golang.org/x/tools/go/ssa"
@@ -30,7 +32,51 @@ func ruleCtx(c *Ctx) {
 		c.undecided("anchor:execute", token.NoPos, "interp.execute not found")
 		return
 	}
-	// (1) the poll block: If on checkCtx whose true branch calls checkContext
+	// the function that looks at the context: a non-blocking select on the done channel (by role), and the
+	// functions of the package that call it (counter wrappers)
+	var nowFn *ssa.Function
+	for _, fn := range c.srcFuncs("interp") {
+		fn := fn
+		allInstrs(fn, func(in ssa.Instruction) {
+			if s, ok := in.(*ssa.Select); ok && !s.Blocking {
+				for _, st := range s.States {
+					if interpFieldLoad(st.Chan) == "ctxDone" {
+						nowFn = fn
+					}
+				}
+			}
+		})
+	}
+	pollFns := map[*ssa.Function]bool{}
+	if nowFn != nil {
+		pollFns[nowFn] = true
+		for changed := true; changed; {
+			changed = false
+			for _, fn := range c.srcFuncs("interp") {
+				if pollFns[fn] || fn == ex || len(fn.Blocks) > 12 {
+					continue
+				}
+				fn := fn
+				allInstrs(fn, func(in ssa.Instruction) {
+					if call, ok := in.(ssa.CallInstruction); ok {
+						if cal := call.Common().StaticCallee(); cal != nil && pollFns[cal] && !pollFns[fn] {
+							pollFns[fn] = true
+							changed = true
+						}
+					}
+				})
+			}
+		}
+	}
+	callsPoll := func(in ssa.Instruction) bool {
+		call, ok := in.(ssa.CallInstruction)
+		if !ok {
+			return false
+		}
+		cal := call.Common().StaticCallee()
+		return cal != nil && pollFns[cal]
+	}
+	// (1) the poll block: If on checkCtx whose true branch (the blocks it dominates) calls a poll function
 	var pollIf *ssa.BasicBlock
 	var pollCall ssa.Instruction
 	for _, b := range ex.Blocks {
@@ -42,15 +88,20 @@ func ruleCtx(c *Ctx) {
 			continue
 		}
 		if name, pos := condField(ifi.Cond); name == "checkCtx" && pos {
-			for _, in := range b.Succs[0].Instrs {
-				if callsNamed(in, "checkContext") {
-					pollIf, pollCall = b, in
+			for _, d := range ex.Blocks {
+				if d != b.Succs[0] && !(len(b.Succs[0].Preds) == 1 && b.Succs[0].Dominates(d)) {
+					continue
+				}
+				for _, in := range d.Instrs {
+					if callsPoll(in) && pollIf == nil {
+						pollIf, pollCall = b, in
+					}
 				}
 			}
 		}
 	}
 	if pollIf == nil {
-		c.bad("poll:present", ex.Pos(), "interp.execute has no `if p.checkCtx { err := p.checkContext() ... }` block: a cancelled context is never noticed")
+		c.bad("poll:present", ex.Pos(), "interp.execute has no block guarded by p.checkCtx that calls the function polling the context's done channel (directly or through a counter wrapper): a cancelled context is never noticed")
 	} else {
 		c.ok("poll:present", pollCall.Pos(), "poll block found in the dispatch loop")
 		// the poll's error is returned when non-nil
@@ -83,7 +134,7 @@ func ruleCtx(c *Ctx) {
 			has := false
 			for _, in := range b.Instrs {
 				if call, ok := in.(ssa.CallInstruction); ok {
-					if f := call.Common().StaticCallee(); f != nil && f.Signature.Recv() != nil && isInterp(f.Signature.Recv().Type()) && f.Name() != "checkContext" {
+					if f := call.Common().StaticCallee(); f != nil && f.Signature.Recv() != nil && isInterp(f.Signature.Recv().Type()) && !pollFns[f] {
 						has = true
 					}
 				}
@@ -100,14 +151,29 @@ func ruleCtx(c *Ctx) {
 		c.check(bad == 0 && nHandlers > 50, "poll:dominates-handlers", badPos, "the poll dominates every handler block of the dispatch switch", "some handler code runs without passing the context poll first")
 	}
 
-	// (2) checkContext / checkContextNow
-	cc := c.ssaFunc("interp", "interp.checkContext")
-	ccn := c.ssaFunc("interp", "interp.checkContextNow")
+	// (2) the counter in front of the poll (in a wrapper such as checkContext, or inlined in the dispatch loop) and
+	// the polling function itself
+	cc := (*ssa.Function)(nil)
+	ccn := nowFn
+	var scan []ssa.Instruction
+	if pollCall != nil {
+		if cal := pollCall.(ssa.CallInstruction).Common().StaticCallee(); cal != nil && cal != nowFn {
+			cc = cal
+			allInstrs(cal, func(in ssa.Instruction) { scan = append(scan, in) })
+		} else if pollIf != nil {
+			cc = ex
+			for _, d := range ex.Blocks {
+				if d == pollIf.Succs[0] || (len(pollIf.Succs[0].Preds) == 1 && pollIf.Succs[0].Dominates(d)) {
+					scan = append(scan, d.Instrs...)
+				}
+			}
+		}
+	}
 	if cc == nil || ccn == nil {
-		c.undecided("anchor:checkContext", token.NoPos, "checkContext/checkContextNow not found")
+		c.undecided("anchor:checkContext", token.NoPos, "the context poll (counter and non-blocking select on ctxDone) was not found")
 	} else {
 		incField, cmpConst, callsNow, resets := "", int64(-1), false, false
-		allInstrs(cc, func(in ssa.Instruction) {
+		for _, in := range scan {
 			if name, val := interpFieldStore(in); name != "" {
 				if bo, ok := val.(*ssa.BinOp); ok && bo.Op == token.ADD {
 					incField = name
@@ -116,15 +182,17 @@ func ruleCtx(c *Ctx) {
 					resets = true
 				}
 			}
-			if bo, ok := in.(*ssa.BinOp); ok && (bo.Op == token.LSS || bo.Op == token.GEQ) {
+			if bo, ok := in.(*ssa.BinOp); ok && (bo.Op == token.LSS || bo.Op == token.GEQ || bo.Op == token.GTR || bo.Op == token.LEQ || bo.Op == token.EQL) {
 				if k, ok := bo.Y.(*ssa.Const); ok && k.Value != nil && k.Value.Kind() == constant.Int {
-					cmpConst, _ = constant.Int64Val(k.Value)
+					if v, _ := constant.Int64Val(k.Value); v > 1 {
+						cmpConst = v
+					}
 				}
 			}
-			if callsNamed(in, "checkContextNow") {
+			if call, ok := in.(ssa.CallInstruction); ok && call.Common().StaticCallee() == nowFn {
 				callsNow = true
 			}
-		})
+		}
 		c.check(incField != "", "counter:field", cc.Pos(), "checkContext counts in interpreter field "+incField+" (shared by nested execute calls)", "checkContext does not increment an interpreter field: nested execute calls would each restart the count")
 		c.check(cmpConst > 0 && cmpConst <= 1000, "counter:bound", cc.Pos(), "the context is examined every "+itoa(cmpConst)+" instructions (documented bound: 1000)", "the poll interval "+itoa(cmpConst)+" is not within the documented bound of 1000 instructions")
 		c.check(callsNow && resets, "counter:calls-now", cc.Pos(), "on reaching the bound the counter is reset and checkContextNow is called", "checkContext does not reset the counter and call checkContextNow")
@@ -159,50 +227,115 @@ func ruleCtx(c *Ctx) {
 			}
 		})
 		c.check(deferred, "executeAll:defer-closeAll", ea.Pos(), "closeAll is deferred: output written before a cancellation or error is flushed and streams are closed", "executeAll does not defer closeAll: output written before cancellation may never be delivered")
-		nRet := 0
-		for _, b := range ea.Blocks {
-			if len(b.Instrs) == 0 {
-				continue
-			}
-			ret, ok := b.Instrs[len(b.Instrs)-1].(*ssa.Return)
-			if !ok || len(ret.Results) != 2 {
-				continue
-			}
-			errv := retResults(ret)[1]
-			call, isCall := errv.(*ssa.Call)
-			if !isCall {
-				if _, isPhi := errv.(*ssa.Phi); !isPhi {
+		// each stage of the run (a call from executeAll that reaches the dispatch loop) evaluated for: the earlier
+		// stages succeeded, this one failed with an ordinary error, the context flag is set and the context has
+		// been cancelled. Every path must hand back the context's error, not the stage's
+		reaches := map[*ssa.Function]bool{ex: true}
+		for changed := true; changed; {
+			changed = false
+			for _, fn := range c.srcFuncs("interp") {
+				if reaches[fn] {
 					continue
 				}
+				fn := fn
+				allInstrs(fn, func(in ssa.Instruction) {
+					if call, ok := in.(ssa.CallInstruction); ok {
+						if cal := call.Common().StaticCallee(); cal != nil && reaches[cal] && !reaches[fn] {
+							reaches[fn] = true
+							changed = true
+						}
+					}
+				})
 			}
-			if isCall {
-				f := call.Call.StaticCallee()
-				if f == nil || (f.Name() != "execute" && f.Name() != "execActions") {
-					continue
-				}
-			}
-			nRet++
-			// the block must be dominated by a test of checkCtx whose true branch calls checkContextNow and returns its error
-			okGuard := false
-			for _, d := range ea.Blocks {
-				if len(d.Instrs) == 0 || !d.Dominates(b) {
-					continue
-				}
-				ifi, ok := d.Instrs[len(d.Instrs)-1].(*ssa.If)
-				if !ok {
-					continue
-				}
-				if name, pos := condField(ifi.Cond); name == "checkCtx" && pos {
-					for _, in := range d.Succs[0].Instrs {
-						if callsNamed(in, "checkContextNow") {
-							okGuard = true
+		}
+		var stages []*ssa.Call
+		for _, blk := range ea.Blocks {
+			for _, in := range blk.Instrs {
+				if call, ok := in.(*ssa.Call); ok {
+					if cal := call.Call.StaticCallee(); cal != nil && reaches[cal] && cal != ea {
+						res := cal.Signature.Results()
+						if res.Len() == 1 && types.TypeString(res.At(0).Type(), nil) == "error" {
+							stages = append(stages, call)
 						}
 					}
 				}
 			}
-			c.check(okGuard, "executeAll:prefer-ctx-error", ret.Pos(), "error return is preceded by `if p.checkCtx { if e := checkContextNow(); e != nil { return e } }`", "executeAll returns a secondary error without first asking the context: after cancellation the caller may see e.g. a killed child's error instead of ctx.Err()")
 		}
-		c.atLeast("error returns of executeAll after execute/execActions", nRet, 3)
+		nRet := 0
+		ipkg := c.ssaPkg("interp")
+		for k, stage := range stages {
+			nRet++
+			e := &sengine{pkg: ipkg}
+			seen := 0
+			e.call = func(p *spath, fr *sframe, call *ssa.Call, callee *ssa.Function, args []iv) (iv, callAction) {
+				if fr == p.stack[0] {
+					for i, st := range stages {
+						if st == call {
+							_ = seen
+							switch {
+							case i < k:
+								return iv{k: 'n'}, callHandled
+							case i == k:
+								p.notes["failed"]++
+								return ivSym("stageErr"), callHandled
+							}
+							return iv{}, callHandled
+						}
+					}
+				}
+				if callee != nil && callee == nowFn {
+					return ivSym("ctxErr"), callHandled
+				}
+				return iv{}, callDefault
+			}
+			e.load = func(p *spath, fr *sframe, addr iv, in *ssa.UnOp) (iv, bool) {
+				if f, x := fieldOfAddr(in.X); f != nil && isInterp(x.Type()) && f.Name() == "checkCtx" {
+					return ivBool(true), true
+				}
+				if g, ok := in.X.(*ssa.Global); ok && strings.HasPrefix(g.Name(), "err") {
+					return ivSym("sentinel:" + g.Name()), true
+				}
+				return iv{}, false
+			}
+			e.binop = func(op token.Token, a, b iv) (iv, bool) {
+				if op != token.EQL && op != token.NEQ {
+					return iv{}, false
+				}
+				switch {
+				case a.k == 's' && b.k == 's':
+					return ivBool((a.s == b.s) == (op == token.EQL)), true
+				case (a.k == 's' && b.k == 'n') || (a.k == 'n' && b.k == 's'):
+					return ivBool(op == token.NEQ), true
+				}
+				return iv{}, false
+			}
+			e.enter = func(callee *ssa.Function, args []iv) bool {
+				for _, a := range args {
+					if a.k == 's' {
+						return true // a helper that is handed the error
+					}
+				}
+				return false
+			}
+			e.startAt(ea, ea.Blocks[0], nil)
+			paths, wrong := 0, 0
+			for _, o := range e.outcomes {
+				if o.panicked || o.notes["failed"] == 0 {
+					continue // the stage under test was not reached on this path
+				}
+				paths++
+				if !(o.ret.k == 'u' && len(o.ret.tup) == 2 && o.ret.tup[1].k == 's' && o.ret.tup[1].s == "ctxErr") {
+					wrong++
+				}
+			}
+			key := fmt.Sprintf("executeAll:prefer-ctx-error#%d", k+1)
+			if len(e.problems) > 0 {
+				c.undecided(key, stage.Pos(), "executeAll could not be evaluated for a failing stage: %v", e.problems)
+				continue
+			}
+			c.check(paths > 0 && wrong == 0, key, stage.Pos(), "when this stage fails under a cancelled context, executeAll returns the context's error on every path", "executeAll returns a secondary error without first asking the context: after cancellation the caller may see e.g. a killed child's error instead of ctx.Err()")
+		}
+		c.atLeast("stages of executeAll that run program code", nRet, 3)
 	}
 
 	// (4) execShell: CommandContext iff checkCtx
